@@ -3,3 +3,11 @@ chk("C07", "model_checking",
     "Every byte string up to a length bound over a class-representative alphabet, and every composition of parts up to a length bound, is run through the real parser and compared with a hand-written grammar; the space is finite and enumerated completely, so within the alphabet/length bound the grammar, totality (no panic), error contract and round trip are decided, not sampled.",
     "Trusted: the reference grammar transcribed from the property statement; bytes outside the alphabet are assumed to behave like their class representative; lengths above the bound are not covered.",
     "bounded-exhaustive input enumeration vs reference grammar (explicit enumeration, no sampling)", "DESIGN.md §3 C07")
+chk("C06", "model_checking",
+    "Every assignment of the eight version-gated features to positions (spec level, device k of n<=3), every device permutation and a domain of declared version strings are built as real specs-go values and compared with a literal feature->version table; the finite space is enumerated completely.",
+    "Trusted: the table transcribed from the statement/SPEC.md; more than 3 devices and v-prefixed version strings (no-panic only) are outside the oracle.",
+    "bounded-exhaustive enumeration of feature placements x permutations x versions vs table model", "DESIGN.md §3 C06")
+chk("C15", "model_checking",
+    "Every plugin/id string over a 12-class alphabet up to a length bound, every length split around the 63-character limit, every device list up to length 3 and six initial maps go through UpdateAnnotations/ParseAnnotations; success results are judged by an independent Kubernetes key rule and by parsing back, failures by map identity. Complete enumeration of the stated finite space.",
+    "Trusted: independent annotation-key rule and name grammar; no completeness oracle (the statement allows refusal).",
+    "bounded-exhaustive input enumeration vs reference rules", "DESIGN.md §3 C15")
